@@ -220,6 +220,49 @@ def run(ctx):
                    f'known by its alias, an un-aliased one by the suffixes of its name; a member never takes over the qualifier of another member (a condition on the '
                    f'model would be pushed into the table fetch and the model would lose its argument)', file=PJ, line=gjs.lineno,
                    witness='select * from mindsdb.sales join int1.sales s on ... where sales.horizon = 7')
+    # ---- ... and the scope survives plan_join_tables: a column written with the full name of its table is still that table's after the planner has normalised the
+    # identifiers of the query (a table and a model with the same last name, neither aliased)
+    pjt_fn = fn.get('plan_join_tables')
+    ctx.need(pjt_fn is not None, 'PlanJoinTablesQuery.plan_join_tables not found')
+    for order, written in itertools.product(('table first', 'model first'), ('int1.sales.a', 'mindsdb.sales.a', 'INT1.Sales.a')):
+        ti_t = Obj('TableInfo', integration='int1', table=ident('sales'), aliases=[('int1', 'sales'), ('sales',)], conditions=[], sub_select=None, predictor_info=None,
+                   join_condition=None, join_type=None, index=0)
+        ti_m = Obj('TableInfo', integration='mindsdb', table=ident('sales'), aliases=[('mindsdb', 'sales'), ('sales',)], conditions=[], sub_select=None,
+                   predictor_info={'name': 'sales'}, join_condition=None, join_type='join', index=1)
+        members = [ti_t, ti_m] if order == 'table first' else [ti_m, ti_t]
+        idx2 = {}
+        for ti in members:
+            for al in ti.aliases:
+                idx2[al] = ti            # as get_join_sequence registers them: a later member takes over a shared short name
+        seq = [members[0], members[1], Obj('Join', join_type='join', condition=None, left=None, right=None, implicit=False)]
+        q = select_ctor(None, targets=[Obj('Star')], from_table=Obj('Join'), where=binop('=', ident(written), const(1)))
+        stubs = base_stubs()
+        stubs['self.planner.get_nested_selects_plan_fnc'] = lambda it, *a, **k: (lambda node, **kw: None)
+        stubs['self.get_join_sequence'] = lambda it, node, *a, **k: list(seq)
+        holder = {}
+        for nm in ('process_table', 'process_predictor', 'process_subselect'):
+            stubs[f'self.{nm}'] = lambda it, *a, **k: holder['self'].attrs['step_stack'].append(Obj('Step', result=Obj('Result')))
+        stubs['self.close_partition'] = lambda it: None
+        stubs['self.check_use_limit'] = lambda it, *a, **k: None
+        stubs['self.add_plan_step'] = lambda it, s_, *a, **k: s_
+        stubs['JoinStep'] = lambda it, **k: Obj('JoinStep', result=Obj('Result'), **k)
+        self_ = holder['self'] = new_pjt(planner=Obj('QueryPlanner', default_namespace='mindsdb'), tables_idx=idx2, tables=list(members), query_context={}, tables_fetch_step={},
+                        step_stack=[Obj('Step', result=Obj('Result'))], partition=None)
+        it = interp_for(stubs)
+        try:
+            it.call_function(pjt_fn, [self_, q], {}, Env())
+        except Raised as r:
+            if r.exc_name not in ('PlanningException', 'IndexError'):
+                raise AnalysisError(f'plan_join_tables raises {r.exc_name} on a table and a model of the same name')
+        rows += 1
+        owner = 'table' if written.lower().startswith('int1') else 'model'
+        got_t, got_m = len(ti_t.conditions), len(ti_m.conditions)
+        ok = (got_t, got_m) == ((1, 0) if owner == 'table' else (0, 1)) or (got_t, got_m) == (0, 0)
+        ctx.ob('C14.attribution', f'normalised:{order}:{written}', ok,
+               f'`int1.sales JOIN mindsdb.sales` ({order}), WHERE {written} = 1: after plan_join_tables the condition is registered for the table {got_t}x and for the model '
+               f'{got_m}x; it names the {owner} with its full name and may only be attributed to it (or to nobody): normalising the column to a short name both members '
+               f'share hands a table filter to the model as an argument', file=PJ, line=pjt_fn.lineno,
+               witness='select * from int1.pred join mindsdb.pred where int1.pred.a = 1')
     # ---- conjunct-only / registered comparison: C08's tables ---------------------------------------------------------------------------------------
     from . import C08
     sub = core.Ctx('C08', ctx.src, ctx.tier)
@@ -231,6 +274,20 @@ def run(ctx):
         if f.rule in rel:
             ctx.ob('C14.filter-split', f'{f.rule}:{f.construct}', False,
                    f'the same collector decides what becomes a model argument and what is pushed into a table fetch: {f.msg}', file=f.file, line=f.line, witness=f.witness)
+    # ---- a model is joined as a model only if the planner recognises it: the catalog (projects / models stored lower-cased, looked up case-insensitively, version
+    # suffix kept) is C10's - its catalog and model-resolution rules are re-run
+    from . import C10
+    sub10 = core.Ctx('C10', ctx.src, ctx.tier)
+    C10.run(sub10)
+    rel10 = ('C10.catalog-store', 'C10.model-resolution', 'C10.lookup', 'C10.compare', 'C10.model-never-fetched', 'C10.version-kept', 'C10.model-identifier')
+    ctx.setcount('c10_obligations', sum(v[0] for k, v in sub10.rules.items() if k in rel10))
+    ctx.floor('c10_obligations', 30)
+    ctx.ob('C14.model-recognised', 'all', True, '')
+    for f in sub10.findings:
+        if f.rule in rel10:
+            ctx.ob('C14.model-recognised', f'{f.rule}:{f.construct}', False,
+                   f'a model that is not recognised as a model is joined like a table (no apply-predictor step, its conditions sent to an integration): {f.msg}',
+                   file=f.file, line=f.line, witness=f.witness)
     ctx.setcount('truth_table_rows', rows)
     ctx.floor('truth_table_rows', 400)
     ctx.floor('c08_obligations', 60)
